@@ -3,6 +3,16 @@
 import json, os, subprocess
 
 CLAIMS = {
+ "C05": dict(
+   category="exploration", design_ref="DESIGN.md §5 C05",
+   technique="model-based testing over generated operation histories (rapid): model map (prototype,value)->link, independent hash + hand-built CID construction, reference DAG-CBOR bytes, load = stored value",
+   text="Histories of store/compute/load/loadraw/loadplusraw/fill on one link system (default registry, or a private one with a dag-pb alias for CIDv0) and storage (memstore, cidlink.Memory; the filesystem store is exercised under C17/C18) with values per codec domain, every codec, 10 hash functions, full/truncated digests, several node implementations and insertion orders. Store and ComputeLink must agree, repeat the same link for the same (prototype, value) whatever the history, equal the independently constructed CID of the stored bytes (and of the reference DAG-CBOR bytes), and every load form must return the stored value and bytes that hash to the link.",
+   note="Trusted: stdlib crypto for the independent digests, hand-built CID layout, reference encoder. Truncated digests shorter than 8 bytes are excluded from histories (real collisions would make 'load returns the stored value' undefined); they are covered in C06."),
+ "C06": dict(
+   category="fault_enumeration", design_ref="DESIGN.md §5 C06",
+   technique="fault enumeration over generated blocks: every bit flip, truncation, read-error offset and chunking of each block against all four load functions with an independent re-hash oracle; generated writer/encoder failures with a spy committer",
+   text="For each generated block (5 codecs × 10 hash functions incl. identity and 1-2 byte digests) the complete set of single-bit flips, truncations, read errors at every offset and fixed chunkings, plus extensions and substitutions, is served by a fault-injecting storage to Load, LoadRaw, LoadPlusRaw and Fill. Whenever an independent re-hash of the served bytes does not reproduce the link the call must fail with ErrHashMismatch and return nothing; storage errors must surface; correct data in any chunking must load. Store with failing writers (every offset) or unencodable nodes must error and never commit.",
+   note="Trusted: stdlib crypto re-hash defines 'legitimate data' (so truncated-digest collisions are recognised, not flagged). TrustedStorage=true is outside the property. Blocks larger than 160 B are skipped to keep the per-block enumeration complete."),
  "C01": dict(
    category="exploration", design_ref="DESIGN.md §5 C01",
    technique="property-based testing (rapid): abstract value model as oracle over generated values × builder call programs × node implementations; self-consistency of every read path; DeepEqual/Copy vs model equality",
